@@ -1,4 +1,6 @@
 import Splipy.Lemmas.EvalRow
+import Splipy.Lemmas.EvalRowTotal
+import Splipy.Lemmas.EvalRowCsr
 import Mathlib.Data.Rat.Floor
 import Mathlib.Tactic.NormNum
 import Mathlib.Tactic.IntervalCases
@@ -10,52 +12,138 @@ import Mathlib.Tactic.IntervalCases
 for one parameter value (`tol` = `state.knot_tolerance`).  `B`/`dB` are the specification
 (Cox–de Boor recursion and its derivative recursion, `Splipy/Spec/BSpline.lean`).
 
+## Part 1 — total theorems (every real parameter; hypotheses: `Valid`, `0 < tol`, index bounds)
+
+The code snaps the parameter to a knot within `tol` (`snap`), then — periodic bases — wraps it into
+the domain WITHOUT snapping again, maps "within `tol` of `start`, left limit requested" to `stop`,
+uses the left limit within `tol` of `stop`, and skips (`continue`, zero row) points outside the
+domain or within `tol` of `start` with the left limit in force.  These tolerance tests are kept
+literally in
+
+* `b.codePoint tol u fromRight` (`Lemmas/EvalRowTotal.lean`) — the point at which the triangle runs,
+* `b.codeSide tol u fromRight` — the side used by the span search,
+* `b.codeSkip tol u fromRight` — the row is skipped,
+
+and `C01_value_deriv` says: for EVERY real `u`, exact or not, the row is zero if skipped and
+otherwise consists of the Cox–de Boor values/derivatives (sums over all wrapped images) AT
+`codePoint`, one-sided according to `codeSide`.  If `codePoint` is not a knot the side is
+irrelevant (`C01_value_deriv_side_irrelevant`).
+
+## Part 2 — `_partial` theorems (extra guards, stated in the docstrings)
+
 `b.ExactAt tol t` says that `t` is a knot or at least `tol` away from every knot, i.e. all
-tolerance comparisons made by the code are exact comparisons.
+tolerance comparisons made by the code are exact comparisons; under it `codePoint`/`codeSide` take
+the readable forms `effSide`, `periodicEff`.
 -/
 
 open Splipy
 
+set_option linter.unusedSectionVars false
+
 variable {K : Type} [Field K] [LinearOrder K] [IsStrictOrderedRing K] [FloorRing K]
 
-/-- Non-periodic basis, `t` in the domain (except the start approached from the left): entry `c`
-of the row is the `d`-th one-sided derivative of the `c`-th B-spline; the side is the requested
-one, except at the domain end, where it is always the limit from inside. -/
-theorem C01_value_deriv_open {b : Basis K} (hv : b.Valid) (hper : b.periodic = -1) {tol t : K}
-    (htol : 0 < tol) (hex : b.ExactAt tol t) (h1 : b.start ≤ t) (h2 : t ≤ b.stop)
-    {fromRight : Bool} (hnot : ¬ (t = b.start ∧ fromRight = false))
-    {d : ℕ} (hd : d < b.order) {c : ℕ} (hc : c < b.numFunctions) :
-    (b.evaluate tol t d fromRight).getD c 0
-      = dB (effSide b t fromRight) b.kn (b.order - 1) c d t := by
-  rw [evaluate_of_exact b htol hex hd, wrapT_nonperiodic hper,
-    evalAt_toDense_inside hv htol hd fromRight (hex.start hv) (hex.stop hv) h1 h2 hnot hc]
-  rw [Basis.numFunctions_of_nonperiodic hper] at hc ⊢
-  exact sum_filter_mod_self _ _ _ hc
+/-! ## Part 1: total theorems -/
 
-/-- Periodic basis, `t` in the domain: entry `c` is the sum of all wrapped images (all `i` with
-`i ≡ c` modulo `numFunctions`) of the one-sided derivative at the effective point/side
-`periodicEff b t fromRight` (left limit at the seam `start` = left limit at `stop`). -/
-theorem C01_value_deriv_periodic {b : Basis K} (hv : b.Valid) (hper : 0 ≤ b.periodic)
-    {tol t : K} (htol : 0 < tol) (hex : b.ExactAt tol t) (h1 : b.start ≤ t) (h2 : t ≤ b.stop)
-    (fromRight : Bool) {d : ℕ} (hd : d < b.order) {c : ℕ} (hc : c < b.numFunctions) :
-    (b.evaluate tol t d fromRight).getD c 0
-      = ∑ i ∈ (Finset.range b.nAll).filter (fun i => i % b.numFunctions = c),
-          dB (periodicEff b t fromRight).2 b.kn (b.order - 1) i d (periodicEff b t fromRight).1 := by
-  obtain ⟨e1, e2, e3, e4, e5, e6⟩ := periodicEff_spec hv hex fromRight h1 h2
-  rw [evaluate_of_exact b htol hex hd, wrapT_periodic_inside hv hper htol hex fromRight h1 h2,
-    evalAt_toDense_inside hv htol hd fromRight e1 e2 e3 e4 e5 hc, e6]
+/-- **What `BSplineBasis.evaluate` returns at every real parameter** (valid basis, positive
+tolerance, `d < order`; NO exactness hypothesis): entry `c` of the row is `0` if the point is
+skipped (`codeSkip`), else the sum over all wrapped images `i ≡ c (mod num_functions)` of the `d`-th
+one-sided (`codeSide`) derivative of the Cox–de Boor B-spline `i` at the effective point
+`codePoint` (= `snap u`, wrapped but not re-snapped for periodic bases, `stop` for the left limit
+at the seam). -/
+theorem C01_value_deriv {b : Basis K} (hv : b.Valid) {tol : K} (htol : 0 < tol) (u : K) {d : ℕ}
+    (hd : d < b.order) (fromRight : Bool) {c : ℕ} (hc : c < b.numFunctions) :
+    (b.evaluate tol u d fromRight).getD c 0
+      = if b.codeSkip tol u fromRight then 0
+        else ∑ i ∈ (Finset.range b.nAll).filter (fun i => i % b.numFunctions = c),
+          dB (b.codeSide tol u fromRight) b.kn (b.order - 1) i d (b.codePoint tol u fromRight) :=
+  evaluate_getD_any hv htol u hd fromRight hc
 
-/-- Periodic basis, arbitrary real parameter `u`: the row is the one of the wrapped point. -/
-theorem C01_value_deriv_periodic_any_real {b : Basis K} (hv : b.Valid) (hper : 0 ≤ b.periodic)
-    {tol u : K} (htol : 0 < tol) (hex : b.ExactAt tol u) (hexw : b.ExactAt tol (b.wrap u))
-    (fromRight : Bool) {d : ℕ} (hd : d < b.order) {c : ℕ} (hc : c < b.numFunctions) :
+/-- Non-periodic form of `C01_value_deriv` (every real parameter): entry `c` is `0` if skipped
+(snapped parameter outside the domain, or within `tol` of `start` with the left limit in force),
+else the `d`-th one-sided derivative of the `c`-th B-spline at the snapped parameter. -/
+theorem C01_value_deriv_open_any {b : Basis K} (hv : b.Valid) (hper : b.periodic = -1) {tol : K}
+    (htol : 0 < tol) (u : K) {d : ℕ} (hd : d < b.order) (fromRight : Bool) {c : ℕ}
+    (hc : c < b.numFunctions) :
+    (b.evaluate tol u d fromRight).getD c 0
+      = if b.codeSkip tol u fromRight then 0
+        else dB (b.codeSide tol u fromRight) b.kn (b.order - 1) c d (snap b tol u) := by
+  rw [C01_value_deriv hv htol u hd fromRight hc]
+  split_ifs
+  · rfl
+  · rw [Basis.numFunctions_of_nonperiodic hper] at hc ⊢
+    rw [sum_filter_mod_self _ _ _ hc]
+    unfold Basis.codePoint
+    rw [if_neg (by rw [hper]; decide)]
+
+/-- If the effective point is not a knot, the side is irrelevant: the row holds THE values /
+derivatives of the B-splines at that point. -/
+theorem C01_value_deriv_side_irrelevant {b : Basis K} (hv : b.Valid) {tol : K} (htol : 0 < tol)
+    (u : K) {d : ℕ} (hd : d < b.order) (fromRight : Bool) {c : ℕ} (hc : c < b.numFunctions)
+    (hns : ¬ b.codeSkip tol u fromRight) (hnk : ∀ j, b.codePoint tol u fromRight ≠ b.kn j)
+    (s : Side) :
     (b.evaluate tol u d fromRight).getD c 0
       = ∑ i ∈ (Finset.range b.nAll).filter (fun i => i % b.numFunctions = c),
-          dB (periodicEff b (b.wrap u) fromRight).2 b.kn (b.order - 1) i d
-            (periodicEff b (b.wrap u) fromRight).1 := by
-  rw [evaluate_wrap hv hper htol hex hexw]
-  exact C01_value_deriv_periodic hv hper htol hexw (b.wrap_mem hv u).1 (b.wrap_mem hv u).2
-    fromRight hd hc
+          dB s b.kn (b.order - 1) i d (b.codePoint tol u fromRight) := by
+  rw [C01_value_deriv hv htol u hd fromRight hc, if_neg hns]
+  exact Finset.sum_congr rfl (fun i _ => dB_side_irrel b.kn _ i d _ hnk _ _)
+
+/-- A skipped parameter gives the zero row (any `d`). -/
+theorem C01_skipped_zero (b : Basis K) (tol u : K) (d : ℕ) (fromRight : Bool)
+    (h : b.codeSkip tol u fromRight) :
+    b.evaluate tol u d fromRight = Array.replicate b.numFunctions 0 :=
+  evaluate_eq_zero_of_codeSkip b tol u d fromRight h
+
+/-- The effective point of a non-periodic basis is the snapped parameter. -/
+theorem C01_codePoint_nonperiodic {b : Basis K} (hper : b.periodic = -1) (tol u : K)
+    (fromRight : Bool) : b.codePoint tol u fromRight = snap b tol u := by
+  unfold Basis.codePoint
+  rw [if_neg (by rw [hper]; decide)]
+
+/-- Periodic basis, snapped parameter inside the domain: the effective point is the snapped
+parameter, except that the left limit within `tol` of the seam `start` is taken at `stop`. -/
+theorem C01_codePoint_periodic_inside {b : Basis K} (hper : 0 ≤ b.periodic) (tol u : K)
+    (fromRight : Bool) (h1 : b.start ≤ snap b tol u) (h2 : snap b tol u ≤ b.stop) :
+    b.codePoint tol u fromRight
+      = if |snap b tol u - b.start| < tol ∧ fromRight = false then b.stop else snap b tol u := by
+  unfold Basis.codePoint
+  rw [if_pos hper, b.wrap_of_mem h1 h2]
+
+/-- Periodic basis, snapped parameter outside the domain: it is wrapped by Python's float modulo
+(`pmod x y = x - ⌊x/y⌋·y`) and NOT snapped again. -/
+theorem C01_codePoint_periodic_outside {b : Basis K} (hper : 0 ≤ b.periodic) (tol u : K)
+    (fromRight : Bool) (h : snap b tol u < b.start ∨ b.stop < snap b tol u) :
+    b.codePoint tol u fromRight
+      = if |pmod (snap b tol u - b.start) (b.stop - b.start) + b.start - b.start| < tol
+            ∧ fromRight = false then b.stop
+        else pmod (snap b tol u - b.start) (b.stop - b.start) + b.start := by
+  unfold Basis.codePoint Basis.wrap
+  rw [if_pos hper, if_pos h]
+
+/-- The side used at the effective point `e`: left within `tol` of `stop`, else as requested. -/
+theorem C01_codeSide_eq (b : Basis K) (tol u : K) (fromRight : Bool) :
+    b.codeSide tol u fromRight
+      = if |b.codePoint tol u fromRight - b.stop| < tol then .left
+        else (if fromRight then .right else .left) := rfl
+
+/-- The skip test at the effective point `e`: outside the domain, or within `tol` of `start` with
+the left limit in force. -/
+theorem C01_codeSkip_iff (b : Basis K) (tol u : K) (fromRight : Bool) :
+    b.codeSkip tol u fromRight ↔
+      (b.codePoint tol u fromRight < b.start ∨ b.stop < b.codePoint tol u fromRight ∨
+        (|b.codePoint tol u fromRight - b.start| < tol ∧ b.codeSide tol u fromRight = .left)) :=
+  Iff.rfl
+
+/-- For a periodic basis the effective point always lies in the domain. -/
+theorem C01_codePoint_periodic_mem {b : Basis K} (hv : b.Valid) (hper : 0 ≤ b.periodic)
+    (tol u : K) (fromRight : Bool) :
+    b.start ≤ b.codePoint tol u fromRight ∧ b.codePoint tol u fromRight ≤ b.stop :=
+  codePoint_mem_of_periodic hv hper tol u fromRight
+
+/-- The row depends on the parameter only through the effective point. -/
+theorem C01_depends_on_codePoint (b : Basis K) (tol u u' : K) (d : ℕ) (fromRight : Bool)
+    (h : b.codePoint tol u fromRight = b.codePoint tol u' fromRight) :
+    b.evaluate tol u d fromRight = b.evaluate tol u' d fromRight :=
+  evaluate_eq_of_codePoint_eq b tol u u' d fromRight h
 
 /-- Non-periodic basis: approaching the start of the domain from the left gives the zero row. -/
 theorem C01_start_from_left {b : Basis K} (hv : b.Valid) (hper : b.periodic = -1) {tol : K}
@@ -68,15 +156,16 @@ theorem C01_start_from_left {b : Basis K} (hv : b.Valid) (hper : b.periodic = -1
     rw [if_neg hd, b.start_eq, snap_knot hv htol hv.order_sub_lt, evalRow_eq,
       wrapT_nonperiodic hper, ← b.start_eq, evalAt_start_left b htol, toDense_zeroRow]
 
-/-- Non-periodic basis: outside the domain the row is zero. -/
-theorem C01_outside {b : Basis K} (hper : b.periodic = -1) {tol t : K}
-    (htol : 0 < tol) (hex : b.ExactAt tol t) (hout : t < b.start ∨ b.stop < t) (d : ℕ)
-    (fromRight : Bool) :
+/-- Non-periodic basis: if the snapped parameter is outside the domain the row is zero. -/
+theorem C01_outside {b : Basis K} (hper : b.periodic = -1) (tol t : K)
+    (hout : snap b tol t < b.start ∨ b.stop < snap b tol t) (d : ℕ) (fromRight : Bool) :
     b.evaluate tol t d fromRight = Array.replicate b.numFunctions 0 := by
-  by_cases hd : b.order ≤ d
-  · exact evaluate_high b tol _ hd fromRight
-  · rw [evaluate_of_exact b htol hex (by omega), wrapT_nonperiodic hper,
-      evalAt_outside b tol d fromRight hout, toDense_zeroRow]
+  apply C01_skipped_zero
+  unfold Basis.codeSkip skipAt
+  rw [C01_codePoint_nonperiodic hper]
+  rcases hout with h | h
+  · exact Or.inl h
+  · exact Or.inr (Or.inl h)
 
 /-- Derivatives of order `≥ order` : the code returns the zero row (no hypotheses at all) … -/
 theorem C01_high_derivative_zero (b : Basis K) (tol t : K) {d : ℕ} (hd : b.order ≤ d)
@@ -90,9 +179,146 @@ theorem C01_high_derivative_zero_spec (b : Basis K) (hp : 1 ≤ b.order) (s : Si
     {d : ℕ} (hd : b.order ≤ d) (i : ℕ) : dB s b.kn (b.order - 1) i d t = 0 :=
   dB_eq_zero_of_gt s b.kn (b.order - 1) i d t (by omega)
 
+/-- The basis functions are non-negative at every real parameter (no exactness hypothesis). -/
+theorem C01_nonneg_any {b : Basis K} (hv : b.Valid) {tol : K} (htol : 0 < tol) (t : K)
+    (fromRight : Bool) (c : ℕ) :
+    0 ≤ (b.evaluate tol t 0 fromRight).getD c 0 :=
+  evaluate_nonneg_any hv htol t fromRight c
+
+/-- Partition of unity at every real parameter: the row sums to one unless it is skipped. -/
+theorem C01_partition_of_unity_any {b : Basis K} (hv : b.Valid) {tol : K} (htol : 0 < tol) (t : K)
+    (fromRight : Bool) :
+    ∑ c ∈ Finset.range b.numFunctions, (b.evaluate tol t 0 fromRight).getD c 0
+      = if b.codeSkip tol t fromRight then 0 else 1 :=
+  evaluate_sum_any hv htol t fromRight
+
+/-- Evaluation at ANY parameter is evaluation at the snapped parameter (`snap` is idempotent; no
+separation of the knots needed). -/
+theorem C01_evaluate_snap {b : Basis K} (hv : b.Valid) {tol : K} (htol : 0 < tol) (t : K) (d : ℕ)
+    (fromRight : Bool) :
+    b.evaluate tol t d fromRight = b.evaluate tol (snap b tol t) d fromRight :=
+  evaluate_snap_any hv htol t d fromRight
+
+omit [FloorRing K] in
+/-- The snapped parameter is a knot, or it is the parameter itself and then at least `tol` away from
+every knot. -/
+theorem C01_snap_knot_or_far {b : Basis K} (hv : b.Valid) (tol t : K) :
+    (∃ k, k < b.knots.size ∧ snap b tol t = b.kn k) ∨
+    (snap b tol t = t ∧ ∀ i, i < b.knots.size → tol ≤ |b.kn i - t|) :=
+  snap_knot_or_far hv tol t
+
+/-- **The dense and the sparse result forms agree — for the source-derived code.**  The translated
+`basis_eval.evaluate` (`Splipy/Generated/Pyx.lean`, regenerated from `basis_eval.pyx` on every run),
+applied to the parameters snapped by the translated `basis_eval.snap`, returns the arguments
+`((data, indices, indptr), (m, num_functions))` of `scipy.sparse.csr_matrix`, and row `i` of its
+`toarray()` (`csrRow`: the slice `indptr[i] : indptr[i+1]` scattered to its column indices,
+duplicates summed) is the dense model row `b.evaluate tol ts[i] d from_right` described by the
+theorems above.  `fuel` bounds the iterations of the `while` loops of the bisections. -/
+theorem C01_sparse_eq_dense {b : Basis K} (hv : b.Valid) {tol : K} (htol : 0 < tol) {d : ℕ}
+    (hd : d < b.order) (fromRight : Bool) {fuel : ℕ} (hfuel : b.knots.size ≤ fuel) (ts : Array K) :
+    ∃ data indices indptr,
+      Splipy.Generated.Pyx.evaluate fuel b.knots b.order
+          (Splipy.Generated.Pyx.snap fuel b.knots ts tol).t b.periodic tol d fromRight
+        = ((data, indices, indptr), (ts.size, b.numFunctions)) ∧
+      ∀ i, i < ts.size →
+        csrRow data indices indptr b.numFunctions i
+          = b.evaluate tol (Splipy.Pyx.aget ts i) d fromRight :=
+  pyx_csr_row_eq_evaluate hv htol hd fromRight hfuel ts
+
+omit [IsStrictOrderedRing K] in
+/-- The two result forms of the MODEL agree.  This is a definitional restatement (the model's dense
+form is defined as `toDense` of its sparse form); the statement with content is
+`C01_sparse_eq_dense` about the translated `.pyx`. -/
+theorem C01_sparse_eq_dense_model (b : Basis K) (tol t : K) {d : ℕ} (hd : d < b.order)
+    (fromRight : Bool) :
+    (b.evaluateSparse tol t d fromRight).toDense b.numFunctions = b.evaluate tol t d fromRight := by
+  unfold Basis.evaluateSparse Basis.evaluate
+  simp only []
+  rw [if_neg (by omega)]
+
+/-! ## Part 2: theorems with extra guards (`_partial`) -/
+
+/-- Periodic basis with period at least `2·tol`: no parameter is skipped.
+PARTIAL — guard `2 * tol ≤ stop - start`.  Missing: shorter periods; there the code DOES skip
+(zero row) parameters within `tol` of both seam points, so the statement is false without it. -/
+theorem C01_periodic_not_skipped_partial {b : Basis K} (hv : b.Valid) (hper : 0 ≤ b.periodic)
+    {tol : K} (h2tol : 2 * tol ≤ b.stop - b.start) (u : K) (fromRight : Bool) :
+    ¬ b.codeSkip tol u fromRight :=
+  not_codeSkip_of_periodic hv hper h2tol u fromRight
+
+/-- Periodic basis, EVERY real parameter (no exactness hypothesis): the row consists of the sums of
+wrapped images of the specification at the effective point.
+PARTIAL — guard `2 * tol ≤ stop - start` (see `C01_periodic_not_skipped_partial`); without it
+`C01_value_deriv` applies. -/
+theorem C01_value_deriv_periodic_all_partial {b : Basis K} (hv : b.Valid) (hper : 0 ≤ b.periodic)
+    {tol : K} (htol : 0 < tol) (h2tol : 2 * tol ≤ b.stop - b.start) (u : K) {d : ℕ}
+    (hd : d < b.order) (fromRight : Bool) {c : ℕ} (hc : c < b.numFunctions) :
+    (b.evaluate tol u d fromRight).getD c 0
+      = ∑ i ∈ (Finset.range b.nAll).filter (fun i => i % b.numFunctions = c),
+          dB (b.codeSide tol u fromRight) b.kn (b.order - 1) i d (b.codePoint tol u fromRight) := by
+  rw [C01_value_deriv hv htol u hd fromRight hc,
+    if_neg (not_codeSkip_of_periodic hv hper h2tol u fromRight)]
+
+/-- Periodic basis, EVERY real parameter: partition of unity.
+PARTIAL — guard `2 * tol ≤ stop - start` (see `C01_periodic_not_skipped_partial`). -/
+theorem C01_partition_of_unity_periodic_all_partial {b : Basis K} (hv : b.Valid)
+    (hper : 0 ≤ b.periodic) {tol : K} (htol : 0 < tol) (h2tol : 2 * tol ≤ b.stop - b.start)
+    (u : K) (fromRight : Bool) :
+    ∑ c ∈ Finset.range b.numFunctions, (b.evaluate tol u 0 fromRight).getD c 0 = 1 := by
+  rw [C01_partition_of_unity_any hv htol u fromRight,
+    if_neg (not_codeSkip_of_periodic hv hper h2tol u fromRight)]
+
+/-- Non-periodic basis, `t` in the domain (except the start approached from the left): entry `c`
+of the row is the `d`-th one-sided derivative of the `c`-th B-spline; the side is the requested
+one, except at the domain end, where it is always the limit from inside.
+PARTIAL — guard `ExactAt tol t` (then `snap t = t`, `codePoint = t`, `codeSide = effSide`);
+inexact parameters are covered by `C01_value_deriv`. -/
+theorem C01_value_deriv_open_partial {b : Basis K} (hv : b.Valid) (hper : b.periodic = -1) {tol t : K}
+    (htol : 0 < tol) (hex : b.ExactAt tol t) (h1 : b.start ≤ t) (h2 : t ≤ b.stop)
+    {fromRight : Bool} (hnot : ¬ (t = b.start ∧ fromRight = false))
+    {d : ℕ} (hd : d < b.order) {c : ℕ} (hc : c < b.numFunctions) :
+    (b.evaluate tol t d fromRight).getD c 0
+      = dB (effSide b t fromRight) b.kn (b.order - 1) c d t := by
+  rw [evaluate_of_exact b htol hex hd, wrapT_nonperiodic hper,
+    evalAt_toDense_inside hv htol hd fromRight (hex.start hv) (hex.stop hv) h1 h2 hnot hc]
+  rw [Basis.numFunctions_of_nonperiodic hper] at hc ⊢
+  exact sum_filter_mod_self _ _ _ hc
+
+/-- Periodic basis, `t` in the domain: entry `c` is the sum of all wrapped images (all `i` with
+`i ≡ c` modulo `numFunctions`) of the one-sided derivative at the effective point/side
+`periodicEff b t fromRight` (left limit at the seam `start` = left limit at `stop`).
+PARTIAL — guards `ExactAt tol t` and `t ∈ [start, stop]`; every real parameter is covered by
+`C01_value_deriv` / `C01_value_deriv_periodic_all_partial`. -/
+theorem C01_value_deriv_periodic_partial {b : Basis K} (hv : b.Valid) (hper : 0 ≤ b.periodic)
+    {tol t : K} (htol : 0 < tol) (hex : b.ExactAt tol t) (h1 : b.start ≤ t) (h2 : t ≤ b.stop)
+    (fromRight : Bool) {d : ℕ} (hd : d < b.order) {c : ℕ} (hc : c < b.numFunctions) :
+    (b.evaluate tol t d fromRight).getD c 0
+      = ∑ i ∈ (Finset.range b.nAll).filter (fun i => i % b.numFunctions = c),
+          dB (periodicEff b t fromRight).2 b.kn (b.order - 1) i d (periodicEff b t fromRight).1 := by
+  obtain ⟨e1, e2, e3, e4, e5, e6⟩ := periodicEff_spec hv hex fromRight h1 h2
+  rw [evaluate_of_exact b htol hex hd, wrapT_periodic_inside hv hper htol hex fromRight h1 h2,
+    evalAt_toDense_inside hv htol hd fromRight e1 e2 e3 e4 e5 hc, e6]
+
+/-- Periodic basis, arbitrary real parameter `u`: the row is the one of the wrapped point.
+PARTIAL — guards `ExactAt tol u` and `ExactAt tol (b.wrap u)`.  The second one is NOT supplied by
+the code (it snaps before wrapping and does not snap again: `6 - 5e-11` on a period-3 basis is
+evaluated at the un-snapped `3 - 5e-11`); `C01_value_deriv` has no such guard. -/
+theorem C01_value_deriv_periodic_any_real_partial {b : Basis K} (hv : b.Valid) (hper : 0 ≤ b.periodic)
+    {tol u : K} (htol : 0 < tol) (hex : b.ExactAt tol u) (hexw : b.ExactAt tol (b.wrap u))
+    (fromRight : Bool) {d : ℕ} (hd : d < b.order) {c : ℕ} (hc : c < b.numFunctions) :
+    (b.evaluate tol u d fromRight).getD c 0
+      = ∑ i ∈ (Finset.range b.nAll).filter (fun i => i % b.numFunctions = c),
+          dB (periodicEff b (b.wrap u) fromRight).2 b.kn (b.order - 1) i d
+            (periodicEff b (b.wrap u) fromRight).1 := by
+  rw [evaluate_wrap hv hper htol hex hexw]
+  exact C01_value_deriv_periodic_partial hv hper htol hexw (b.wrap_mem hv u).1 (b.wrap_mem hv u).2
+    fromRight hd hc
+
 /-- The basis functions are non-negative (every exact parameter; for periodic bases the wrapped
-parameter has to be exact as well). -/
-theorem C01_nonneg {b : Basis K} (hv : b.Valid) {tol t : K} (htol : 0 < tol)
+parameter has to be exact as well).
+PARTIAL — guards `ExactAt tol t` and, for periodic bases, `ExactAt tol (b.wrap t)`; superseded by the
+total `C01_nonneg_any` (kept because other files use it). -/
+theorem C01_nonneg_partial {b : Basis K} (hv : b.Valid) {tol t : K} (htol : 0 < tol)
     (hex : b.ExactAt tol t) (hexw : 0 ≤ b.periodic → b.ExactAt tol (b.wrap t))
     (fromRight : Bool) (c : ℕ) :
     0 ≤ (b.evaluate tol t 0 fromRight).getD c 0 := by
@@ -108,8 +334,10 @@ theorem C01_nonneg {b : Basis K} (hv : b.Valid) {tol t : K} (htol : 0 < tol)
     rw [evaluate_of_exact b htol hex (by omega), wrapT_nonperiodic hper']
     exact evalAt_toDense_nonneg hv htol (by omega) fromRight (hex.start hv) (hex.stop hv) c
 
-/-- Partition of unity on the domain (for non-periodic bases except the start from the left). -/
-theorem C01_partition_of_unity {b : Basis K} (hv : b.Valid) {tol t : K} (htol : 0 < tol)
+/-- Partition of unity on the domain (for non-periodic bases except the start from the left).
+PARTIAL — guards `ExactAt tol t`, `t ∈ [start, stop]`; `C01_partition_of_unity_any` covers every real
+parameter (sum `= 1` unless skipped). -/
+theorem C01_partition_of_unity_partial {b : Basis K} (hv : b.Valid) {tol t : K} (htol : 0 < tol)
     (hex : b.ExactAt tol t) (h1 : b.start ≤ t) (h2 : t ≤ b.stop) (fromRight : Bool)
     (hnot : b.periodic = -1 → ¬ (t = b.start ∧ fromRight = false)) :
     ∑ c ∈ Finset.range b.numFunctions, (b.evaluate tol t 0 fromRight).getD c 0 = 1 := by
@@ -124,42 +352,82 @@ theorem C01_partition_of_unity {b : Basis K} (hv : b.Valid) {tol t : K} (htol : 
     exact evalAt_toDense_partition hv htol fromRight (hex.start hv) (hex.stop hv) h1 h2
       (hnot hper')
 
-/-- Partition of unity for periodic bases at an arbitrary real parameter. -/
-theorem C01_partition_of_unity_periodic_any_real {b : Basis K} (hv : b.Valid)
+/-- Partition of unity for periodic bases at an arbitrary real parameter.
+PARTIAL — guards `ExactAt tol u`, `ExactAt tol (b.wrap u)` (the latter is not supplied by the code);
+see `C01_partition_of_unity_any` / `C01_partition_of_unity_periodic_all_partial`. -/
+theorem C01_partition_of_unity_periodic_any_real_partial {b : Basis K} (hv : b.Valid)
     (hper : 0 ≤ b.periodic) {tol u : K} (htol : 0 < tol) (hex : b.ExactAt tol u)
     (hexw : b.ExactAt tol (b.wrap u)) (fromRight : Bool) :
     ∑ c ∈ Finset.range b.numFunctions, (b.evaluate tol u 0 fromRight).getD c 0 = 1 := by
   rw [evaluate_wrap hv hper htol hex hexw]
-  exact C01_partition_of_unity hv htol hexw (b.wrap_mem hv u).1 (b.wrap_mem hv u).2 fromRight
+  exact C01_partition_of_unity_partial hv htol hexw (b.wrap_mem hv u).1 (b.wrap_mem hv u).2 fromRight
     (fun h => by rw [h] at hper; exact absurd hper (by decide))
 
 /-- If distinct knot values are at least `tol` apart, evaluation at ANY parameter `t` is evaluation
-at the snapped parameter, and the snapped parameter is exact — so all theorems of this file apply
-to `snap b tol t`. -/
-theorem C01_evaluate_snap {b : Basis K} (hv : b.Valid) {tol : K} (htol : 0 < tol)
+at the snapped parameter, and the snapped parameter is exact — so all `ExactAt` theorems of this
+file apply to `snap b tol t`.
+PARTIAL — guard `Separated tol` (needed only for the second conjunct; the first one is the total
+`C01_evaluate_snap`; without separation `C01_snap_knot_or_far` is what remains true). -/
+theorem C01_evaluate_snap_partial {b : Basis K} (hv : b.Valid) {tol : K} (htol : 0 < tol)
     (hsep : b.Separated tol) (t : K) (d : ℕ) (fromRight : Bool) :
     b.evaluate tol t d fromRight = b.evaluate tol (snap b tol t) d fromRight ∧
       b.ExactAt tol (snap b tol t) :=
   ⟨evaluate_snap hv htol hsep t d fromRight, exactAt_snap hv hsep t⟩
 
-omit [IsStrictOrderedRing K] in
-/-- The dense and the sparse result forms agree. -/
-theorem C01_sparse_eq_dense (b : Basis K) (tol t : K) {d : ℕ} (hd : d < b.order)
-    (fromRight : Bool) :
-    (b.evaluateSparse tol t d fromRight).toDense b.numFunctions = b.evaluate tol t d fromRight := by
-  unfold Basis.evaluateSparse Basis.evaluate
-  simp only []
-  rw [if_neg (by omega)]
-
 /-- Periodic bases can be evaluated at any real: shifting the parameter by whole periods does not
 change the row (`t` and the shifted parameter must not be the domain end `stop` itself, whose row
-is the left limit, whereas `stop + m·T` wraps to `start`). -/
-theorem C01_periodic_any_real {b : Basis K} (hv : b.Valid) (hper : 0 ≤ b.periodic) {tol t : K}
+is the left limit, whereas `stop + m·T` wraps to `start`).
+PARTIAL — guards `ExactAt` at both parameters and both `≠ stop`; superseded by
+`C01_periodic_shift_partial` (weaker guards, domain end included). -/
+theorem C01_periodic_any_real_partial {b : Basis K} (hv : b.Valid) (hper : 0 ≤ b.periodic) {tol t : K}
     (htol : 0 < tol) (m : ℤ) (hex : b.ExactAt tol t)
     (hex' : b.ExactAt tol (t + m * (b.stop - b.start)))
     (h1 : t ≠ b.stop) (h2 : t + m * (b.stop - b.start) ≠ b.stop) (d : ℕ) (fromRight : Bool) :
     b.evaluate tol (t + m * (b.stop - b.start)) d fromRight = b.evaluate tol t d fromRight :=
   evaluate_add_int_mul hv hper htol m hex hex' h1 h2 d fromRight
+
+/-- **Shift by whole periods**, domain end included.  PARTIAL — guards:
+* both parameters are fixed by `snap` (weaker than `ExactAt`; NECESSARY: `1 + 5e-11` is snapped to
+  the knot `1`, `1 + 5e-11 + 2T` is near no knot of the array and is evaluated un-snapped);
+* one of: (a) neither parameter is the domain end `stop`; (b) the left limit is requested and
+  `tol ≤ stop - start` (any `d`); (c) values (`d = 0`), seam of multiplicity `< order`
+  (`Basis.SeamSimple`) and the two seam points exact — `evaluate_stop_eq_start`
+  (`Lemmas/C08SeamRow.lean`).
+Missing, because FALSE: derivative rows (`d ≥ 1`) with the right limit at `t = stop` —
+`evaluate(stop, d, True)` is the left limit at `stop`, `evaluate(stop + T, d, True)` the right
+limit at `start`; for `BSplineBasis(3,[-1,0,0,1,2,3,3,4],0)`, `d = 1`: `[2,0,0,-2]` vs
+`[-2,2,0,0]`. -/
+theorem C01_periodic_shift_partial {b : Basis K} (hv : b.Valid) (hper : 0 ≤ b.periodic)
+    {tol t : K} (htol : 0 < tol) (m : ℤ) (hs : snap b tol t = t)
+    (hs' : snap b tol (t + m * (b.stop - b.start)) = t + m * (b.stop - b.start))
+    (d : ℕ) (fromRight : Bool)
+    (hcase : (t ≠ b.stop ∧ t + m * (b.stop - b.start) ≠ b.stop) ∨
+      (fromRight = false ∧ tol ≤ b.stop - b.start) ∨
+      (d = 0 ∧ (∀ j, j + (b.order - 1) < b.knots.size → b.kn j = b.start →
+          b.kn (j + (b.order - 1)) ≠ b.start) ∧ b.ExactAt tol b.start ∧ b.ExactAt tol b.stop)) :
+    b.evaluate tol (t + m * (b.stop - b.start)) d fromRight = b.evaluate tol t d fromRight := by
+  rcases hcase with ⟨h1, h2⟩ | ⟨hf, hT⟩ | ⟨hd, hmult, hex0, hex1⟩
+  · exact evaluate_shift_of_ne_stop hv hper m hs hs' h1 h2 d fromRight
+  · subst hf
+    exact evaluate_shift_left hv hper htol hT m hs hs' d
+  · subst hd
+    cases fromRight with
+    | true => exact evaluate_shift_value hv hper hmult htol hex0 hex1 m hs hs'
+    | false =>
+      have hT : tol ≤ b.stop - b.start := by
+        rcases hex0 b.nAll hv.nAll_lt with h | h
+        · exact absurd h.symm (ne_of_lt hv.start_lt_stop)
+        · rwa [← b.stop_eq, abs_of_pos (sub_pos.mpr hv.start_lt_stop)] at h
+      exact evaluate_shift_left hv hper htol hT m hs hs' 0
+
+/-! ### Old names, kept ONLY because other files use them (`alias`, not listed as property theorems) -/
+
+alias C01_value_deriv_open := C01_value_deriv_open_partial
+alias C01_value_deriv_periodic_any_real := C01_value_deriv_periodic_any_real_partial
+alias C01_nonneg := C01_nonneg_partial
+alias C01_partition_of_unity := C01_partition_of_unity_partial
+alias C01_partition_of_unity_periodic_any_real := C01_partition_of_unity_periodic_any_real_partial
+alias C01_periodic_any_real := C01_periodic_any_real_partial
 
 
 /-! ## Non-vacuity: concrete bases over `ℚ` meeting the hypotheses of every theorem -/
@@ -261,35 +529,137 @@ theorem C01_exOpen_separated : C01_exOpen.Separated (1/1000) := by
   interval_cases i <;> interval_cases j <;>
     norm_num [Basis.kn, C01_exOpen, abs_of_nonneg, abs_of_neg]
 
-/-- C01_value_deriv_open: interior point, first derivative. -/
-example : (C01_exOpen.evaluate (1/1000) (1/2) 1 true).getD 2 0
-    = dB (effSide C01_exOpen (1/2) true) C01_exOpen.kn 2 2 1 (1/2) :=
-  C01_value_deriv_open C01_exOpen_valid rfl (by norm_num) C01_exOpen_exact_half
-    (by rw [C01_exOpen_start]; norm_num) (by rw [C01_exOpen_stop]; norm_num)
-    (by simp) (by decide) (by decide)
+theorem C01_exPer_exact_three : C01_exPer.ExactAt (1/1000) 3 := by
+  intro i hi
+  have hi' : i < 8 := hi
+  interval_cases i <;> norm_num [Basis.kn, C01_exPer, abs_of_nonneg, abs_of_neg]
 
-/-- C01_value_deriv_open: the domain end, requested from the right (evaluated from the left). -/
-example : (C01_exOpen.evaluate (1/1000) 3 0 true).getD 5 0
-    = dB (effSide C01_exOpen 3 true) C01_exOpen.kn 2 5 0 3 :=
-  C01_value_deriv_open C01_exOpen_valid rfl (by norm_num) C01_exOpen_exact_stop
-    (by rw [C01_exOpen_start]; norm_num) (by rw [C01_exOpen_stop])
-    (by simp) (by decide) (by decide)
+theorem C01_exPer_exact_six : C01_exPer.ExactAt (1/1000) 6 := by
+  intro i hi
+  have hi' : i < 8 := hi
+  interval_cases i <;> norm_num [Basis.kn, C01_exPer, abs_of_nonneg, abs_of_neg]
 
-/-- C01_value_deriv_periodic: the seam from the left. -/
-example : (C01_exPer.evaluate (1/1000) 0 1 false).getD 3 0
-    = ∑ i ∈ (Finset.range C01_exPer.nAll).filter (fun i => i % C01_exPer.numFunctions = 3),
-        dB (periodicEff C01_exPer 0 false).2 C01_exPer.kn 2 i 1 (periodicEff C01_exPer 0 false).1 :=
-  C01_value_deriv_periodic C01_exPer_valid (by decide) (by norm_num) C01_exPer_exact_zero
-    (by rw [C01_exPer_start]) (by rw [C01_exPer_stop]; norm_num) false (by decide) (by decide)
+/-- The auditor's parameter: `6 - tol/2` on the period-3 basis is near no knot of the array … -/
+theorem C01_exPer_exact_near_six : C01_exPer.ExactAt (1/1000) (6 - 1/2000) := by
+  intro i hi
+  have hi' : i < 8 := hi
+  interval_cases i <;> norm_num [Basis.kn, C01_exPer, abs_of_nonneg, abs_of_neg]
 
-/-- C01_value_deriv_periodic_any_real. -/
-example : (C01_exPer.evaluate (1/1000) (7/2) 0 true).getD 0 0
+/-- … but wraps to `3 - tol/2`, which is within `tol` of the knot `3` and not equal to it. -/
+theorem C01_exPer_not_exact_wrapped : ¬ C01_exPer.ExactAt (1/1000) (3 - 1/2000) := by
+  intro h
+  have := h 5 (by decide)
+  norm_num [Basis.kn, C01_exPer, abs_of_nonneg] at this
+
+/-- The seam of `C01_exPer` has multiplicity `2 < 3` (`Basis.SeamSimple`). -/
+theorem C01_exPer_seamSimple : ∀ j, j + (C01_exPer.order - 1) < C01_exPer.knots.size →
+    C01_exPer.kn j = C01_exPer.start → C01_exPer.kn (j + (C01_exPer.order - 1)) ≠ C01_exPer.start := by
+  intro j hj
+  have hj' : j + 2 < 8 := hj
+  have hj'' : j < 6 := by omega
+  rw [C01_exPer_start]
+  interval_cases j <;> norm_num [Basis.kn, C01_exPer]
+
+theorem C01_exPer_pmod (x : ℚ) (h0 : 0 ≤ x) (h3 : x < 3) :
+    pmod (x + 3 - C01_exPer.start) (C01_exPer.stop - C01_exPer.start) = x := by
+  rw [C01_exPer_start, C01_exPer_stop]
+  have := pmod_add_int_mul x 3 1 (by norm_num)
+  rw [show x + 3 - 0 = x + ((1 : ℤ) : ℚ) * 3 by norm_num, sub_zero, this, pmod_of_mem x 3 h0 h3]
+
+/-- The effective point of the auditor's parameter: the un-snapped wrapped value. -/
+theorem C01_exPer_codePoint_near_six (fromRight : Bool) :
+    C01_exPer.codePoint (1/1000) (6 - 1/2000) fromRight = 3 - 1/2000 := by
+  have hs : snap C01_exPer (1/1000) (6 - 1/2000) = 6 - 1/2000 :=
+    snap_of_exact _ (by norm_num) C01_exPer_exact_near_six
+  rw [C01_codePoint_periodic_outside (by decide) _ _ _ (by rw [hs, C01_exPer_stop]; norm_num), hs,
+    show (6 : ℚ) - 1/2000 = (3 - 1/2000) + 3 by norm_num,
+    C01_exPer_pmod _ (by norm_num) (by norm_num), C01_exPer_start]
+  rw [if_neg (by
+    rintro ⟨h, -⟩
+    rw [abs_of_nonneg (by norm_num)] at h
+    norm_num at h)]
+  norm_num
+
+theorem C01_exPer_not_knot_near_three : ∀ j, (3 : ℚ) - 1/2000 ≠ C01_exPer.kn j := by
+  intro j
+  by_cases hj : j < 8
+  · interval_cases j <;> norm_num [Basis.kn, C01_exPer]
+  · rw [C01_exPer.kn_of_ge (by simpa [C01_exPer] using hj)]
+    norm_num [Basis.kn, C01_exPer]
+
+theorem C01_exPer_period : 2 * (1/1000 : ℚ) ≤ C01_exPer.stop - C01_exPer.start := by
+  rw [C01_exPer_stop, C01_exPer_start]; norm_num
+
+/-! ### Part 1 (total theorems) -/
+
+/-- C01_value_deriv at the auditor's parameter (periodic, wraps to within `tol` of a knot). -/
+example : (C01_exPer.evaluate (1/1000) (6 - 1/2000) 1 true).getD 0 0
+    = if C01_exPer.codeSkip (1/1000) (6 - 1/2000) true then 0
+      else ∑ i ∈ (Finset.range C01_exPer.nAll).filter (fun i => i % C01_exPer.numFunctions = 0),
+        dB (C01_exPer.codeSide (1/1000) (6 - 1/2000) true) C01_exPer.kn (C01_exPer.order - 1) i 1
+          (C01_exPer.codePoint (1/1000) (6 - 1/2000) true) :=
+  C01_value_deriv C01_exPer_valid (by norm_num) _ (by decide) true (by decide)
+
+/-- … where the effective point is `3 - 1/2000` and the side used is the left one. -/
+example : C01_exPer.codePoint (1/1000) (6 - 1/2000) true = 3 - 1/2000 ∧
+    C01_exPer.codeSide (1/1000) (6 - 1/2000) true = .left := by
+  refine ⟨C01_exPer_codePoint_near_six true, ?_⟩
+  rw [C01_codeSide_eq, C01_exPer_codePoint_near_six, C01_exPer_stop, if_pos]
+  rw [abs_of_neg (by norm_num)]; norm_num
+
+/-- C01_value_deriv, non-periodic. -/
+example : (C01_exOpen.evaluate (1/1000) (1/3) 2 false).getD 1 0
+    = if C01_exOpen.codeSkip (1/1000) (1/3) false then 0
+      else ∑ i ∈ (Finset.range C01_exOpen.nAll).filter (fun i => i % C01_exOpen.numFunctions = 1),
+        dB (C01_exOpen.codeSide (1/1000) (1/3) false) C01_exOpen.kn (C01_exOpen.order - 1) i 2
+          (C01_exOpen.codePoint (1/1000) (1/3) false) :=
+  C01_value_deriv C01_exOpen_valid (by norm_num) _ (by decide) false (by decide)
+
+/-- C01_value_deriv_open_any. -/
+example : (C01_exOpen.evaluate (1/1000) (1/3) 2 false).getD 1 0
+    = if C01_exOpen.codeSkip (1/1000) (1/3) false then 0
+      else dB (C01_exOpen.codeSide (1/1000) (1/3) false) C01_exOpen.kn (C01_exOpen.order - 1) 1 2
+        (snap C01_exOpen (1/1000) (1/3)) :=
+  C01_value_deriv_open_any C01_exOpen_valid rfl (by norm_num) _ (by decide) false (by decide)
+
+/-- C01_value_deriv_side_irrelevant / C01_periodic_not_skipped_partial. -/
+example (s : Side) : (C01_exPer.evaluate (1/1000) (6 - 1/2000) 1 true).getD 0 0
     = ∑ i ∈ (Finset.range C01_exPer.nAll).filter (fun i => i % C01_exPer.numFunctions = 0),
-        dB (periodicEff C01_exPer (C01_exPer.wrap (7/2)) true).2 C01_exPer.kn 2 i 0
-          (periodicEff C01_exPer (C01_exPer.wrap (7/2)) true).1 :=
-  C01_value_deriv_periodic_any_real C01_exPer_valid (by decide) (by norm_num)
-    C01_exPer_exact_seven_halves (by rw [C01_exPer_wrap]; exact C01_exPer_exact_half) true
-    (by decide) (by decide)
+        dB s C01_exPer.kn (C01_exPer.order - 1) i 1 (C01_exPer.codePoint (1/1000) (6 - 1/2000) true) :=
+  C01_value_deriv_side_irrelevant C01_exPer_valid (by norm_num) _ (by decide) true (by decide)
+    (C01_periodic_not_skipped_partial C01_exPer_valid (by decide) C01_exPer_period _ _)
+    (by rw [C01_exPer_codePoint_near_six]; exact C01_exPer_not_knot_near_three) s
+
+/-- C01_skipped_zero / C01_codePoint_nonperiodic / C01_codeSkip_iff. -/
+example : C01_exOpen.evaluate (1/1000) 4 1 true = Array.replicate C01_exOpen.numFunctions 0 :=
+  C01_skipped_zero _ _ _ _ _ (by
+    rw [C01_codeSkip_iff, C01_codePoint_nonperiodic rfl,
+      snap_of_exact _ (by norm_num) C01_exOpen_exact_four, C01_exOpen_stop]
+    right; left; norm_num)
+
+/-- C01_codePoint_periodic_inside. -/
+example : C01_exPer.codePoint (1/1000) 0 false = C01_exPer.stop := by
+  have hs : snap C01_exPer (1/1000) 0 = 0 := snap_of_exact _ (by norm_num) C01_exPer_exact_zero
+  rw [C01_codePoint_periodic_inside (by decide) _ _ _ (by rw [hs, C01_exPer_start])
+    (by rw [hs, C01_exPer_stop]; norm_num), hs, C01_exPer_start, if_pos]
+  norm_num
+
+/-- C01_codePoint_periodic_mem. -/
+example : C01_exPer.start ≤ C01_exPer.codePoint (1/1000) 17 true ∧
+    C01_exPer.codePoint (1/1000) 17 true ≤ C01_exPer.stop :=
+  C01_codePoint_periodic_mem C01_exPer_valid (by decide) _ _ _
+
+/-- C01_depends_on_codePoint: `1/2` and `7/2` have the same effective point. -/
+example : C01_exPer.evaluate (1/1000) (7/2) 1 true = C01_exPer.evaluate (1/1000) (1/2) 1 true := by
+  apply C01_depends_on_codePoint
+  have hs : snap C01_exPer (1/1000) (1/2) = 1/2 := snap_of_exact _ (by norm_num) C01_exPer_exact_half
+  have hs' : snap C01_exPer (1/1000) (7/2) = 7/2 :=
+    snap_of_exact _ (by norm_num) C01_exPer_exact_seven_halves
+  rw [C01_codePoint_periodic_outside (by decide) _ _ _ (by rw [hs', C01_exPer_stop]; norm_num), hs',
+    C01_codePoint_periodic_inside (by decide) _ _ _ (by rw [hs, C01_exPer_start]; norm_num)
+      (by rw [hs, C01_exPer_stop]; norm_num), hs,
+    show (7 : ℚ) / 2 = 1/2 + 3 by norm_num, C01_exPer_pmod _ (by norm_num) (by norm_num)]
+  simp [C01_exPer_start]
 
 /-- C01_start_from_left. -/
 example : C01_exOpen.evaluate (1/1000) C01_exOpen.start 0 false
@@ -298,8 +668,8 @@ example : C01_exOpen.evaluate (1/1000) C01_exOpen.start 0 false
 
 /-- C01_outside. -/
 example : C01_exOpen.evaluate (1/1000) 4 1 true = Array.replicate C01_exOpen.numFunctions 0 :=
-  C01_outside rfl (by norm_num) C01_exOpen_exact_four
-    (Or.inr (by rw [C01_exOpen_stop]; norm_num)) 1 true
+  C01_outside rfl _ _ (Or.inr (by
+    rw [snap_of_exact _ (by norm_num) C01_exOpen_exact_four, C01_exOpen_stop]; norm_num)) 1 true
 
 /-- C01_high_derivative_zero / C01_high_derivative_zero_spec. -/
 example : C01_exOpen.evaluate (1/1000) (1/2) 3 true
@@ -309,48 +679,165 @@ example : C01_exOpen.evaluate (1/1000) (1/2) 3 true
 example : dB .right C01_exOpen.kn 2 1 3 (1/2) = 0 :=
   C01_high_derivative_zero_spec C01_exOpen (by decide) .right (1/2) (d := 3) (by decide) 1
 
-/-- C01_nonneg (non-periodic and periodic). -/
+/-- C01_nonneg_any (every real parameter). -/
+example : 0 ≤ (C01_exPer.evaluate (1/1000) (6 - 1/2000) 0 false).getD 1 0 :=
+  C01_nonneg_any C01_exPer_valid (by norm_num) _ false 1
+
+/-- C01_partition_of_unity_any / C01_partition_of_unity_periodic_all_partial. -/
+example : ∑ c ∈ Finset.range C01_exPer.numFunctions,
+    (C01_exPer.evaluate (1/1000) (6 - 1/2000) 0 true).getD c 0
+      = if C01_exPer.codeSkip (1/1000) (6 - 1/2000) true then 0 else 1 :=
+  C01_partition_of_unity_any C01_exPer_valid (by norm_num) _ true
+
+example : ∑ c ∈ Finset.range C01_exPer.numFunctions,
+    (C01_exPer.evaluate (1/1000) (6 - 1/2000) 0 true).getD c 0 = 1 :=
+  C01_partition_of_unity_periodic_all_partial C01_exPer_valid (by decide) (by norm_num)
+    C01_exPer_period _ true
+
+/-- C01_value_deriv_periodic_all_partial. -/
+example : (C01_exPer.evaluate (1/1000) (6 - 1/2000) 1 false).getD 2 0
+    = ∑ i ∈ (Finset.range C01_exPer.nAll).filter (fun i => i % C01_exPer.numFunctions = 2),
+        dB (C01_exPer.codeSide (1/1000) (6 - 1/2000) false) C01_exPer.kn (C01_exPer.order - 1) i 1
+          (C01_exPer.codePoint (1/1000) (6 - 1/2000) false) :=
+  C01_value_deriv_periodic_all_partial C01_exPer_valid (by decide) (by norm_num) C01_exPer_period _
+    (by decide) false (by decide)
+
+/-- C01_evaluate_snap / C01_snap_knot_or_far. -/
+example : C01_exPer.evaluate (1/1000) (1 + 1/2000) 1 true
+    = C01_exPer.evaluate (1/1000) (snap C01_exPer (1/1000) (1 + 1/2000)) 1 true :=
+  C01_evaluate_snap C01_exPer_valid (by norm_num) _ 1 true
+
+example : (∃ k, k < C01_exPer.knots.size ∧ snap C01_exPer (1/1000) (1 + 1/2000) = C01_exPer.kn k) ∨
+    (snap C01_exPer (1/1000) (1 + 1/2000) = 1 + 1/2000 ∧
+      ∀ i, i < C01_exPer.knots.size → 1/1000 ≤ |C01_exPer.kn i - (1 + 1/2000)|) :=
+  C01_snap_knot_or_far C01_exPer_valid _ _
+
+/-- C01_sparse_eq_dense (translated `.pyx`, two parameters) / C01_sparse_eq_dense_model. -/
+example : ∃ data indices indptr,
+    Splipy.Generated.Pyx.evaluate 9 C01_exOpen.knots C01_exOpen.order
+        (Splipy.Generated.Pyx.snap 9 C01_exOpen.knots #[1/2, 3] (1/1000)).t C01_exOpen.periodic
+        (1/1000) 1 true
+      = ((data, indices, indptr), ((#[1/2, 3] : Array ℚ).size, C01_exOpen.numFunctions)) ∧
+    ∀ i, i < (#[1/2, 3] : Array ℚ).size →
+      csrRow data indices indptr C01_exOpen.numFunctions i
+        = C01_exOpen.evaluate (1/1000) (Splipy.Pyx.aget #[1/2, 3] i) 1 true :=
+  C01_sparse_eq_dense C01_exOpen_valid (by norm_num) (by decide) true (by decide) _
+
+example : (C01_exOpen.evaluateSparse (1/1000) (1/2) 1 true).toDense C01_exOpen.numFunctions
+    = C01_exOpen.evaluate (1/1000) (1/2) 1 true :=
+  C01_sparse_eq_dense_model C01_exOpen (1/1000) (1/2) (by decide) true
+
+/-! ### Part 2 (`_partial` theorems) -/
+
+/-- C01_value_deriv_open_partial: interior point, first derivative. -/
+example : (C01_exOpen.evaluate (1/1000) (1/2) 1 true).getD 2 0
+    = dB (effSide C01_exOpen (1/2) true) C01_exOpen.kn 2 2 1 (1/2) :=
+  C01_value_deriv_open_partial C01_exOpen_valid rfl (by norm_num) C01_exOpen_exact_half
+    (by rw [C01_exOpen_start]; norm_num) (by rw [C01_exOpen_stop]; norm_num)
+    (by simp) (by decide) (by decide)
+
+/-- C01_value_deriv_open_partial: the domain end, requested from the right (evaluated from the
+left). -/
+example : (C01_exOpen.evaluate (1/1000) 3 0 true).getD 5 0
+    = dB (effSide C01_exOpen 3 true) C01_exOpen.kn 2 5 0 3 :=
+  C01_value_deriv_open_partial C01_exOpen_valid rfl (by norm_num) C01_exOpen_exact_stop
+    (by rw [C01_exOpen_start]; norm_num) (by rw [C01_exOpen_stop])
+    (by simp) (by decide) (by decide)
+
+/-- C01_value_deriv_periodic_partial: the seam from the left. -/
+example : (C01_exPer.evaluate (1/1000) 0 1 false).getD 3 0
+    = ∑ i ∈ (Finset.range C01_exPer.nAll).filter (fun i => i % C01_exPer.numFunctions = 3),
+        dB (periodicEff C01_exPer 0 false).2 C01_exPer.kn 2 i 1 (periodicEff C01_exPer 0 false).1 :=
+  C01_value_deriv_periodic_partial C01_exPer_valid (by decide) (by norm_num) C01_exPer_exact_zero
+    (by rw [C01_exPer_start]) (by rw [C01_exPer_stop]; norm_num) false (by decide) (by decide)
+
+/-- C01_value_deriv_periodic_any_real_partial. -/
+example : (C01_exPer.evaluate (1/1000) (7/2) 0 true).getD 0 0
+    = ∑ i ∈ (Finset.range C01_exPer.nAll).filter (fun i => i % C01_exPer.numFunctions = 0),
+        dB (periodicEff C01_exPer (C01_exPer.wrap (7/2)) true).2 C01_exPer.kn 2 i 0
+          (periodicEff C01_exPer (C01_exPer.wrap (7/2)) true).1 :=
+  C01_value_deriv_periodic_any_real_partial C01_exPer_valid (by decide) (by norm_num)
+    C01_exPer_exact_seven_halves (by rw [C01_exPer_wrap]; exact C01_exPer_exact_half) true
+    (by decide) (by decide)
+
+/-- C01_nonneg_partial (non-periodic and periodic). -/
 example : 0 ≤ (C01_exOpen.evaluate (1/1000) (1/2) 0 true).getD 1 0 :=
-  C01_nonneg C01_exOpen_valid (by norm_num) C01_exOpen_exact_half
+  C01_nonneg_partial C01_exOpen_valid (by norm_num) C01_exOpen_exact_half
     (fun h => absurd h (by decide)) true 1
 
 example : 0 ≤ (C01_exPer.evaluate (1/1000) (7/2) 0 false).getD 1 0 :=
-  C01_nonneg C01_exPer_valid (by norm_num) C01_exPer_exact_seven_halves
+  C01_nonneg_partial C01_exPer_valid (by norm_num) C01_exPer_exact_seven_halves
     (fun _ => by rw [C01_exPer_wrap]; exact C01_exPer_exact_half) false 1
 
-/-- C01_partition_of_unity (non-periodic, and periodic at the seam from the left). -/
+/-- C01_partition_of_unity_partial (non-periodic, and periodic at the seam from the left). -/
 example : ∑ c ∈ Finset.range C01_exOpen.numFunctions,
     (C01_exOpen.evaluate (1/1000) (1/2) 0 false).getD c 0 = 1 :=
-  C01_partition_of_unity C01_exOpen_valid (by norm_num) C01_exOpen_exact_half
+  C01_partition_of_unity_partial C01_exOpen_valid (by norm_num) C01_exOpen_exact_half
     (by rw [C01_exOpen_start]; norm_num) (by rw [C01_exOpen_stop]; norm_num) false
     (fun _ h => by rw [C01_exOpen_start] at h; norm_num at h)
 
 example : ∑ c ∈ Finset.range C01_exPer.numFunctions,
     (C01_exPer.evaluate (1/1000) 0 0 false).getD c 0 = 1 :=
-  C01_partition_of_unity C01_exPer_valid (by norm_num) C01_exPer_exact_zero
+  C01_partition_of_unity_partial C01_exPer_valid (by norm_num) C01_exPer_exact_zero
     (by rw [C01_exPer_start]) (by rw [C01_exPer_stop]; norm_num) false
     (fun h => absurd h (by decide))
 
-/-- C01_partition_of_unity_periodic_any_real. -/
+/-- C01_partition_of_unity_periodic_any_real_partial. -/
 example : ∑ c ∈ Finset.range C01_exPer.numFunctions,
     (C01_exPer.evaluate (1/1000) (7/2) 0 true).getD c 0 = 1 :=
-  C01_partition_of_unity_periodic_any_real C01_exPer_valid (by decide) (by norm_num)
+  C01_partition_of_unity_periodic_any_real_partial C01_exPer_valid (by decide) (by norm_num)
     C01_exPer_exact_seven_halves (by rw [C01_exPer_wrap]; exact C01_exPer_exact_half) true
 
-/-- C01_evaluate_snap. -/
+/-- C01_evaluate_snap_partial. -/
 example : C01_exOpen.evaluate (1/1000) (1/3) 1 true
     = C01_exOpen.evaluate (1/1000) (snap C01_exOpen (1/1000) (1/3)) 1 true ∧
       C01_exOpen.ExactAt (1/1000) (snap C01_exOpen (1/1000) (1/3)) :=
-  C01_evaluate_snap C01_exOpen_valid (by norm_num) C01_exOpen_separated (1/3) 1 true
+  C01_evaluate_snap_partial C01_exOpen_valid (by norm_num) C01_exOpen_separated (1/3) 1 true
 
-/-- C01_sparse_eq_dense. -/
-example : (C01_exOpen.evaluateSparse (1/1000) (1/2) 1 true).toDense C01_exOpen.numFunctions
-    = C01_exOpen.evaluate (1/1000) (1/2) 1 true :=
-  C01_sparse_eq_dense C01_exOpen (1/1000) (1/2) (by decide) true
-
-/-- C01_periodic_any_real. -/
+/-- C01_periodic_any_real_partial. -/
 example : C01_exPer.evaluate (1/1000) (1/2 + (1 : ℤ) * (C01_exPer.stop - C01_exPer.start)) 1 true
     = C01_exPer.evaluate (1/1000) (1/2) 1 true :=
-  C01_periodic_any_real C01_exPer_valid (by decide) (by norm_num) 1 C01_exPer_exact_half
+  C01_periodic_any_real_partial C01_exPer_valid (by decide) (by norm_num) 1 C01_exPer_exact_half
     (by rw [C01_exPer_stop, C01_exPer_start]; norm_num; exact C01_exPer_exact_seven_halves)
     (by rw [C01_exPer_stop]; norm_num) (by rw [C01_exPer_stop, C01_exPer_start]; norm_num) 1 true
+
+theorem C01_exPer_snap_shift_half :
+    snap C01_exPer (1/1000) (1/2 + ((1 : ℤ) : ℚ) * (C01_exPer.stop - C01_exPer.start))
+      = 1/2 + ((1 : ℤ) : ℚ) * (C01_exPer.stop - C01_exPer.start) := by
+  apply snap_of_exact _ (by norm_num)
+  rw [C01_exPer_stop, C01_exPer_start]; norm_num; exact C01_exPer_exact_seven_halves
+
+theorem C01_exPer_snap_shift_stop :
+    snap C01_exPer (1/1000) (C01_exPer.stop + ((1 : ℤ) : ℚ) * (C01_exPer.stop - C01_exPer.start))
+      = C01_exPer.stop + ((1 : ℤ) : ℚ) * (C01_exPer.stop - C01_exPer.start) := by
+  apply snap_of_exact _ (by norm_num)
+  rw [C01_exPer_stop, C01_exPer_start]; norm_num; exact C01_exPer_exact_six
+
+theorem C01_exPer_snap_stop : snap C01_exPer (1/1000) C01_exPer.stop = C01_exPer.stop := by
+  apply snap_of_exact _ (by norm_num)
+  rw [C01_exPer_stop]; exact C01_exPer_exact_three
+
+/-- C01_periodic_shift_partial, case (a): neither parameter is the domain end. -/
+example : C01_exPer.evaluate (1/1000) (1/2 + (1 : ℤ) * (C01_exPer.stop - C01_exPer.start)) 1 true
+    = C01_exPer.evaluate (1/1000) (1/2) 1 true :=
+  C01_periodic_shift_partial C01_exPer_valid (by decide) (by norm_num) 1
+    (snap_of_exact _ (by norm_num) C01_exPer_exact_half) C01_exPer_snap_shift_half 1 true
+    (Or.inl ⟨by rw [C01_exPer_stop]; norm_num, by rw [C01_exPer_stop, C01_exPer_start]; norm_num⟩)
+
+/-- C01_periodic_shift_partial, case (b): the domain end, left limit, first derivative. -/
+example : C01_exPer.evaluate (1/1000)
+      (C01_exPer.stop + (1 : ℤ) * (C01_exPer.stop - C01_exPer.start)) 1 false
+    = C01_exPer.evaluate (1/1000) C01_exPer.stop 1 false :=
+  C01_periodic_shift_partial C01_exPer_valid (by decide) (by norm_num) 1
+    C01_exPer_snap_stop C01_exPer_snap_shift_stop 1 false
+    (Or.inr (Or.inl ⟨rfl, by rw [C01_exPer_stop, C01_exPer_start]; norm_num⟩))
+
+/-- C01_periodic_shift_partial, case (c): the domain end, values, right limit (seam continuity). -/
+example : C01_exPer.evaluate (1/1000)
+      (C01_exPer.stop + (1 : ℤ) * (C01_exPer.stop - C01_exPer.start)) 0 true
+    = C01_exPer.evaluate (1/1000) C01_exPer.stop 0 true :=
+  C01_periodic_shift_partial C01_exPer_valid (by decide) (by norm_num) 1
+    C01_exPer_snap_stop C01_exPer_snap_shift_stop 0 true
+    (Or.inr (Or.inr ⟨rfl, C01_exPer_seamSimple,
+      by rw [C01_exPer_start]; exact C01_exPer_exact_zero,
+      by rw [C01_exPer_stop]; exact C01_exPer_exact_three⟩))
